@@ -277,6 +277,19 @@ def scenario(ctx):
             ctx.violation("C18/switch-state-global", "slave not in configuration state; requests %r" % [r.hex() for r in w.slave.requests])
     for _ in range(1 + ctx.choice(8, "nsvc")):
         with ctx.span("svc"):
+            if ctx.choice(10, "sendfail") == 1:
+                # the driver refuses ONE frame of a request (transmit buffer full): that call fails in whatever way - not judged;
+                # the calls after it are judged as always
+                w.bus.fail_next_send = True
+                k = ctx.choice(3, "failsvc")
+                if k == 2:
+                    call(w.lss.inquire_lss_address, 0x5A)
+                else:
+                    call((w.lss.inquire_node_id, w.lss.store_configuration)[k])
+                w.bus.fail_next_send = False
+                ctx.run_for(600 * MS)
+                w.slave.illegal.clear()
+                ctx.fault("driver-refuses-one-frame")
             _service(ctx, w, identity)
     if ctx.choice(3, "leave") == 0:
         w.lss.send_switch_state_global(w.lss.WAITING_STATE)
